@@ -103,7 +103,8 @@ def run(ctx, chk, tier):
             for e in apps:
                 r = rank(e["value"], env_rank)
                 inloop = e["loops"]
-                is_cross = bool(inloop) and isinstance(inloop[-1][2], App) and inloop[-1][2].fn == "zip"
+                # the fallback appends the closest sample (an argmin selection); crossings are appended from the loop over the crossing indices
+                is_cross = bool(inloop) and isinstance(inloop[-1][2], App) and inloop[-1][2].fn == "zip" and "argmin(" not in getattr(e["value"], "key", "")
                 kind = "crossing" if is_cross else "fallback"
                 if r == 0:
                     chk.hold("R17.1", "%s:%s-rank" % (tag, kind), "%s value appended to s[...] has rank 0" % kind)
